@@ -18,6 +18,11 @@ REPLIES = ["reply", "reply_time", "none", "none", "report", "reply", "garbage", 
 def build_case(u, tier="quick"):
     cfg = v3hist.g_v3cfg(u, need_priv=True)
     pattern = v3hist.g_steps(u, u.range(3, 48), REPLIES, marker=True, allow_set_keys=True)
+    # a few requests that cannot be encoded (they fail locally with SnmpEncodeError and send nothing): whatever they do to
+    # the salt counter, the salts of the messages that *are* sent must stay unique
+    for _ in range(u.below(4)):
+        big = ("call", ("get_many", ["1.3.6.1.4.1.%d.%d" % (4000000000 + i, 4000000000 - i) for i in range(420)]), "none", 0)
+        pattern.insert(u.below(len(pattern) + 1), big)
     k = u.below(16)
     if tier == "quick":
         n = len(pattern) if k < 10 else (u.range(100, 400) if k < 15 else u.range(1000, 2000))
@@ -33,11 +38,14 @@ def expand(c):
 
 def execute(G, c):
     cfg = c["cfg"]
-    st = {"inst": -1, "prev": None, "seen": set(), "sends": 0, "leak_checked": 0}
+    st = {"inst": -1, "prev": None, "seen": set(), "sends": 0, "leak_checked": 0, "failed": 0}
+
+    def on_failed_send(idx, installation):
+        st["failed"] += 1
 
     def on_request(model, m, d, idx, installation):
         if installation != st["inst"]:
-            st["inst"], st["prev"], st["seen"] = installation, None, set()
+            st["inst"], st["prev"], st["seen"], st["failed"] = installation, None, set(), 0
         salt = m["priv_params"]
         if len(salt) != 8:
             raise core.Failure("salt-length", "msgPrivacyParameters has %d octets" % len(salt))
@@ -49,8 +57,12 @@ def execute(G, c):
             v, mod = int.from_bytes(salt[4:], "big"), 2 ** 32
         else:
             v, mod = int.from_bytes(salt, "big"), 2 ** 64
-        if st["prev"] is not None and v != (st["prev"] + 1) % mod:
-            raise core.Failure("salt-not-incremented:" + cfg.priv, "send %d: salt counter %d follows %d (must advance by exactly one)" % (idx, v, st["prev"]))
+        # a send that failed locally may or may not have consumed a salt: the counter advances by 1 .. 1+failed
+        step = None if st["prev"] is None else (v - st["prev"]) % mod
+        if step is not None and not 1 <= step <= 1 + st["failed"]:
+            raise core.Failure("salt-not-incremented:" + cfg.priv, "send %d: salt counter %d follows %d (%d locally failed sends in between; must advance by one per message)"
+                               % (idx, v, st["prev"], st["failed"]))
+        st["failed"] = 0
         key = salt if cfg.priv == "aes" else salt[4:]
         if key in st["seen"]:
             raise core.Failure("salt-repeated:" + cfg.priv, "send %d: salt %s already used under this key installation" % (idx, salt.hex()))
@@ -74,7 +86,7 @@ def execute(G, c):
 
     # decode_strict (inside execute) decrypts every message; for long runs that is the cost driver, so
     # structure/priv oracles are left to C03/C11 and only the salt rules run on every message
-    info = v3hist.execute(G, cfg, expand(c), set(), on_request=on_request)
+    info = v3hist.execute(G, cfg, expand(c), set(), on_request=on_request, on_failed_send=on_failed_send)
     info.update(st)
     return info
 
